@@ -5,12 +5,13 @@ limit through three entry points; (shape x orientation x transformation) for
 the symmetries; (shape x size x beta x gamma) for robustness, each execution
 in its own forked child so that a Fortran STOP is an observed outcome.
 """
+import itertools
 import math
 
 import numpy as np
 
 import hpcases as H
-from lib import Checker, digest, fp_values
+from lib import Checker, digest, fork_call, fp_values
 
 PROPERTY = "C10"
 RULE = ("sphere limit: product size parameter x index x (6 polar x 7 "
@@ -69,6 +70,18 @@ def cases(tier, seed):
                     out.append({"id": "robust:%s:x=%r:beta=%r:gamma=%r" %
                                 (sh, x, b, g), "kind": "robust", "shape": sh,
                                 "x": x, "beta": b, "gamma": g})
+    # histories: the T-matrix of the previous particle stays in a Fortran
+    # COMMON block; nearly identical particles in one interpreter must not
+    # see it
+    refs = {}
+    for name in HOPS:
+        st, val = fork_call(_hop, name, timeout=300)
+        refs[name] = val if st == "ok" else "FAILED:%s:%r" % (st, val)
+    L = 2 if tier == "quick" else 3
+    for n in range(1, L + 1):
+        for seq in itertools.product(list(HOPS), repeat=n):
+            out.append({"id": "hist:" + ">".join(seq), "kind": "history",
+                        "seq": list(seq), "ref": {o: refs[o] for o in seq}})
     # sizes beyond the Fortran dimension limits
     for sh in ROB_SHAPES[:2]:
         for x in ([150.0] if tier == "quick" else [105.0, 150.0, 250.0]):
@@ -76,6 +89,53 @@ def cases(tier, seed):
                         "kind": "robust", "shape": sh, "x": x, "beta": 0.4,
                         "gamma": 0.7})
     return out
+
+
+HOPS = {  # name -> ("sphere", n, x) | (shape, n, xev, beta, gamma)
+    "sph": ("sphere", 1.59, 5.0),
+    "sph-absorbing": ("sphere", 1.59 + 0.05j, 5.0),
+    "sph-n+0.01": ("sphere", 1.60, 5.0),
+    "spo": ("spheroid2", 1.59, 4.0, 0.4, 0.7),
+    "spo-tilt": ("spheroid2", 1.59, 4.0, 0.41, 0.7),
+    "spo-absorbing": ("spheroid2", 1.59 + 0.05j, 4.0, 0.4, 0.7),
+    "spo-oblate": ("spheroid0.5", 1.59, 4.0, 0.4, 0.7),
+    "cyl": ("cyl1", 1.59, 4.0, 0.4, 0.7),
+}
+
+
+def _hop(name):
+    import holopy as hp
+    from holopy.scattering import (Sphere, Tmatrix, calc_holo,
+                                   calc_scat_matrix)
+    spec = HOPS[name]
+    if spec[0] == "sphere":
+        s = Sphere(n=spec[1], r=spec[2] / H.K, center=CENTER)
+    else:
+        s = _shape(spec[0], spec[2], spec[3], spec[4], n=spec[1])
+    det = H.det_points([[0.0, 0.0, 0.0], [0.9, 0.2, 0.0], [-0.5, 1.1, 0.0],
+                        [2.0, -1.5, 0.0]])
+    h = calc_holo(det, s, H.NMED, H.WL, (1, 0), theory=Tmatrix()).values
+    detp = hp.detector_points(theta=np.array([0.0, 0.7, 2.0]),
+                              phi=np.array([0.0, 1.0, 4.0]))
+    S = calc_scat_matrix(detp, s, H.NMED, H.WL, theory=Tmatrix()).values
+    return digest(np.ascontiguousarray(h), np.ascontiguousarray(S))
+
+
+def _run_history(case, ck):
+    outs = []
+    for i, name in enumerate(case["seq"]):
+        ref = case["ref"][name]
+        if str(ref).startswith("FAILED"):
+            ck.true("pristine-reference", False, "%s failed in a pristine "
+                    "interpreter: %s" % (name, ref))
+            return "ref-failed"
+        got = _hop(name)
+        ck.trans += 2
+        ck.true("history-independent", got == ref, "step %d (%s) of %s gives "
+                "a different result than the same call in a pristine "
+                "interpreter" % (i + 1, name, ">".join(case["seq"])))
+        outs.append(got)
+    return digest(*outs)
 
 
 def _shape(name, xev, beta, gamma, alpha=0.0, center=CENTER, n=1.59):
@@ -275,5 +335,5 @@ def run_case(case):
         fp, outcome = _run_robust(case, ck)
         return ck.result(fp=fp, outcome=outcome)
     fp = {"sphere": _run_sphere, "equalaxes": _run_equalaxes,
-          "sym": _run_sym}[case["kind"]](case, ck)
+          "sym": _run_sym, "history": _run_history}[case["kind"]](case, ck)
     return ck.result(fp=fp)
